@@ -70,7 +70,8 @@ Digest(m, p, w) ==
 Cases ==
   {[mod |-> "sha256", proc |-> "hash_2to1", pat |-> p] : p \in Pats(16)}
   \cup {[mod |-> "sha256", proc |-> "hash_1to1", pat |-> p] : p \in Pats(8)}
-  \cup {[mod |-> "sha256", proc |-> "hash_memory", pat |-> <<p[1], p[2], n>>] : p \in BytePats, n \in ByteLens}
+  \* (the message starts at word addresses of every residue modulo 4: a block is four memory words)
+  \cup {[mod |-> "sha256", proc |-> "hash_memory", pat |-> <<p[1], p[2], n, b>>] : p \in BytePats, n \in ByteLens, b \in {10000, 10001, 10002, 10003}}
   \cup {[mod |-> "blake3", proc |-> "hash_2to1", pat |-> p] : p \in Pats(16)}
   \cup {[mod |-> "blake3", proc |-> "hash_1to1", pat |-> p] : p \in Pats(8)}
   \cup {[mod |-> "keccak256", proc |-> "hash", pat |-> p] : p \in Pats(16)}
